@@ -86,6 +86,30 @@ def run():
 
 
 run()
+# ---- no relaxation: norm, purity and energy conserved, state vector and density matrix agree, all within the truncation bound -------
+try:
+    import math
+    ta_c = qr.TimeAxis(0.0, 200, 0.2)
+    with qr.energy_units("int"):
+        Hc_ = qr.Hamiltonian(data=[[0.0, 0.3, 0.05], [0.3, 1.0, 0.2], [0.05, 0.2, 1.4]])
+    Hcd = numpy.array(Hc_.data)
+    psi_c = numpy.array([0.6, 0.64, 0.48], dtype=complex)
+    psi_c /= numpy.linalg.norm(psi_c)
+    for L_ in (2, 4, 6):
+        ev_ = numpy.array(StateVectorPropagator(ta_c, Hc_).propagate(StateVector(data=psi_c.copy()), L=L_).data)
+        r0_ = qr.ReducedDensityMatrix(data=numpy.outer(psi_c, psi_c.conj()))
+        rt_ = numpy.array(qr.ReducedDensityMatrixPropagator(ta_c, Hc_).propagate(r0_, method="short-exp-%d" % L_).data)
+        bound_ = 4 * ta_c.length * (abs(Hcd).sum(axis=1).max() * 0.2) ** (L_ + 1) / math.factorial(L_ + 1)
+        devs = {"norm of the state vector": abs(numpy.einsum("ti,ti->t", ev_.conj(), ev_).real - 1).max(),
+                "purity": abs(numpy.einsum("tij,tji->t", rt_, rt_).real - 1).max(),
+                "energy": abs(numpy.einsum("ij,tji->t", Hcd, rt_).real - (psi_c.conj() @ Hcd @ psi_c).real).max(),
+                "state vector vs density matrix": abs(numpy.einsum("ti,tj->tij", ev_, ev_.conj()) - rt_).max()}
+        for what_, dv_ in devs.items():
+            if dv_ > bound_:
+                bad.append("closed system, order %d: %s deviates by %.3e, truncation bound %.3e" % (L_, what_, dv_, bound_))
+except Exception as e:      # noqa
+    bad.append("closed-system conservation part raised %s: %s" % (type(e).__name__, str(e)[:120]))
+
 # ---- rotating frame <-> laboratory frame of a stored evolution: explicit phases, and there-and-back is the identity -----------------
 try:
     from quantarhei.qm.propagators.dmevolution import ReducedDensityMatrixEvolution
